@@ -303,6 +303,7 @@ func typeMembers(tier string, cfg gen.Config) []member {
 				{Label: "xs", Spec: &fam.Spec{Kind: "array", Items: &fam.Spec{Kind: "object", Ref: "$defs", RefSibling: sib, Props: []*fam.Prop{{Label: "w", Spec: &fam.Spec{Kind: "boolean"}}}}}}}}})
 		}
 	}
+	out = append(out, mapRefMembers(cfg)...)
 	for _, sp := range specs {
 		for _, pos := range positions {
 			if sp.Kind == "object" && len(sp.Props) == 0 && pos[:3] == "def" {
@@ -313,6 +314,20 @@ func typeMembers(tier string, cfg gen.Config) []member {
 			}
 			out = append(out, member{name: "type " + pos + " " + sp.String(), cfg: cfg, root: place(sp, pos)})
 		}
+	}
+	return out
+}
+
+// mapRefMembers: maps whose value schema is given by reference.
+func mapRefMembers(cfg gen.Config) []member {
+	var out []member
+	// a map (object without properties) whose VALUE schema is a reference to an object definition with a required property, or
+	// to a constrained string definition: the value type is that definition's type, not interface{}
+	for _, req := range []bool{true, false} {
+		vo := &fam.Spec{Kind: "object", Ref: "$defs", Props: []*fam.Prop{{Label: "host", Spec: &fam.Spec{Kind: "string"}, Required: true}, {Label: "port", Spec: &fam.Spec{Kind: "integer"}}}}
+		vs := &fam.Spec{Kind: "string", Ref: "$defs", Kw: []string{"minLength"}}
+		out = append(out, member{name: fmt.Sprintf("map with values given by reference required=%v", req), cfg: cfg, root: &fam.Spec{Kind: "object", Props: []*fam.Prop{
+			{Label: "servers", Spec: &fam.Spec{Kind: "object", AddPropsSpec: vo}, Required: req}, {Label: "labels", Spec: &fam.Spec{Kind: "object", AddPropsSpec: vs}, Required: req}}}})
 	}
 	return out
 }
